@@ -32,6 +32,7 @@ const (
 	KNonNil               // some non-nil reference identified by Key
 	KAddr                 // address of memory cell Key
 	KTuple
+	KSlice // slice of a local array with known elements Tup (variadic arguments)
 )
 
 // AV is an abstract value.
@@ -73,12 +74,9 @@ func (a AV) String() string {
 		return "nonnil:" + a.Key
 	case KAddr:
 		return "&" + a.Key
-	case KTuple:
-		var ss []string
-		for _, t := range a.Tup {
-			ss = append(ss, t.String())
-		}
-		return "(" + strings.Join(ss, ", ") + ")"
+	case KSlice:
+		return a.Key
+
 	default:
 		return a.Key
 	}
@@ -578,6 +576,16 @@ func (it *Interp) builtin(fr *frame, b *ssa.Builtin, c ssa.CallInstruction, args
 			return best
 		}
 	}
+	if b.Name() == "append" && len(args) == 2 && args[1].Kind == KSlice && (args[0].Kind == KNil || args[0].Kind == KSlice) {
+		sl := AV{Kind: KSlice}
+		sl.Tup = append(append(sl.Tup, args[0].Tup...), args[1].Tup...)
+		var es []string
+		for _, e := range sl.Tup {
+			es = append(es, e.String())
+		}
+		sl.Key = "[" + strings.Join(es, ", ") + "]"
+		return sl
+	}
 	var aks []string
 	for _, a := range args {
 		aks = append(aks, a.String())
@@ -646,6 +654,20 @@ func (it *Interp) compute(fr *frame, v ssa.Value) AV {
 					return m
 				}
 				if strings.HasPrefix(a.Key, "local#") {
+					// a field of a local struct that was stored as a whole
+					for pre := a.Key; ; {
+						i := strings.LastIndex(pre, ".")
+						if i < 0 {
+							break
+						}
+						pre = pre[:i]
+						if m, ok := it.mem[pre]; ok {
+							if m.Kind == KSym || m.Kind == KNonNil {
+								return it.lookup(m.Key + a.Key[len(pre):])
+							}
+							break
+						}
+					}
 					// never stored: zero value
 					return zeroAV(x.Type())
 				}
@@ -717,12 +739,20 @@ func (it *Interp) compute(fr *frame, v ssa.Value) AV {
 					ks = append(ks, k)
 				}
 			}
-			sort.Strings(ks)
+			sort.Slice(ks, func(i, j int) bool {
+				if len(ks[i]) != len(ks[j]) {
+					return len(ks[i]) < len(ks[j])
+				}
+				return ks[i] < ks[j]
+			})
 			var es []string
+			sl := AV{Kind: KSlice}
 			for _, k := range ks {
 				es = append(es, it.mem[k].String())
+				sl.Tup = append(sl.Tup, it.mem[k])
 			}
-			return Sym("[" + strings.Join(es, ", ") + "]")
+			sl.Key = "[" + strings.Join(es, ", ") + "]"
+			return sl
 		}
 		if a.Kind == KSym || a.Kind == KNonNil {
 			if x.Low == nil && x.High == nil {
@@ -1091,10 +1121,13 @@ func (f Features) Key(k string) string { return f.get(k).Key }
 
 // DecideCfg configures a decision-table check.
 type DecideCfg struct {
-	Dom     Domain
-	Inline  func(*ssa.Function) bool
-	OnCall  func(it *Interp, name string, args []AV) (AV, bool)
-	StopAt  map[string]bool
+	Dom    Domain
+	Inline func(*ssa.Function) bool
+	OnCall func(it *Interp, name string, args []AV) (AV, bool)
+	StopAt map[string]bool
+	// OnUnd, if set, is called for every undecided leaf and the exploration
+	// continues; otherwise the first undecided leaf ends the check.
+	OnUnd   func(env Env, why string)
 	NonNil  map[string]bool
 	Args    func(it *Interp) []AV
 	MaxRuns int
@@ -1166,6 +1199,10 @@ func (p *Prog) Decide(fn *ssa.Function, cfg DecideCfg) (res DecideResult) {
 			continue
 		}
 		if o.Exit == "undecided" {
+			if cfg.OnUnd != nil {
+				cfg.OnUnd(env, o.Und)
+				continue
+			}
 			res.Und = o.Und + " [valuation: " + env.String() + "]"
 			return res
 		}
